@@ -302,6 +302,19 @@ func (fr *FnRun) specEq(st *State, a, b Val) *Term {
 			return fr.sliceEq(st, sa, sb)
 		}
 	}
+	// an abstract (uninterpreted-sort) ghost element compared with a structured Go value: the
+	// abstraction carries no information about it (unknown, never assumed true or false)
+	ta, aok := a.(*Term)
+	tb, bok := b.(*Term)
+	if aok != bok {
+		t := ta
+		if bok {
+			t = tb
+		}
+		if strings.HasPrefix(string(t.Sort), "U_") {
+			return Var(fr.ex.fresh("abstract_eq"), SBool)
+		}
+	}
 	return fr.valEq(st, a, b)
 }
 
@@ -431,9 +444,22 @@ func (fr *FnRun) evalQuant(e *Expr, env *Env) Val {
 		}
 		rng = And(cs...)
 	}
-	body := fr.evalBool(e.Z, cur)
+	// forall x :: trigger(pattern, body): an explicit instantiation pattern
+	var trig *Term
+	bodyE := e.Z
+	if bodyE.Kind == "call" && bodyE.X.Kind == "ident" && bodyE.X.Name == "trigger" && len(bodyE.Args) == 2 {
+		if pt, ok := fr.ex.force(cur.st, fr.eval(bodyE.Args[0], cur)).(*Term); ok {
+			trig = pt
+		}
+		bodyE = bodyE.Args[1]
+	}
+	body := fr.evalBool(bodyE, cur)
 	if e.Kind == "forall" {
 		q := Forall(bound, Implies(rng, body))
+		if q.Op == "forall" && trig != nil {
+			q.Pats = []*Term{trig}
+			return q
+		}
 		if q.Op == "forall" {
 			if ps := selectPatterns(q.Args[0], bound); len(ps) > 0 && false {
 				q.Pats, q.AltPats = ps, true
